@@ -30,7 +30,7 @@ theorem body_ok {api : Api} (hapi : apiWF api = true) {ns : Namespace} (hns : ns
   obtain ⟨hndAL, hndR, hdAL⟩ := List.nodup_append.mp hnd3
   have hfresh0 : ∀ n, n ∈ (ns.annTypes.map (fmtClass ·.name) ++ (ns.types.flatMap (fun d => [fmtClass d.name, fmtClass d.name ++ "_validator"])
       ++ (ns.aliases.flatMap (fun a => (fmtClass a.name ++ "_validator") ::
-          (if aliasEndsInUser api api.nAliases a.ty then [a.name] else []))
+          (if aliasEndsInUser api api.nAliases a.ty then [fmtClass a.name] else []))
       ++ (ns.routes.map (fun r => fmtFunc r.name false r.version) ++ ["ROUTES"])))) →
       st.global? (modName ns) n = none := by
     intro n hn
